@@ -1,6 +1,6 @@
 //! runs a generated journal workload on the real crate; one line `R <i> <result>` per operation
 //! on stdout. Launched by the `fault` engine under the LD_PRELOAD shim.
-use fjall::{CompressionType, Database, KeyspaceCreateOptions, PersistMode};
+use fjall::{CompressionType, Database, Keyspace, KeyspaceCreateOptions, OptimisticTxDatabase, OptimisticTxKeyspace, PersistMode, SingleWriterTxDatabase, SingleWriterTxKeyspace};
 use verif_harness::wl::{self, Mode, WOp};
 
 fn pm(m: &Mode) -> PersistMode { match m { Mode::Buffer => PersistMode::Buffer, Mode::SyncData => PersistMode::SyncData, Mode::SyncAll => PersistMode::SyncAll } }
@@ -21,13 +21,32 @@ fn main() {
     let seed: u64 = a[2].parse().unwrap();
     let rotations = a.get(3).map(|x| x == "rot").unwrap_or(false);
     let w = wl::gen_with(seed, rotations);
-    let db = Database::builder(&dir)
-        .worker_threads_unchecked(0)
-        .manual_journal_persist(w.manual)
-        .journal_compression(if w.lz4 { CompressionType::Lz4 } else { CompressionType::None })
-        .open()
-        .unwrap();
-    let kss: Vec<_> = (0..w.nks).map(|i| db.keyspace(&format!("ks{i}"), || KeyspaceCreateOptions::default().manual_journal_persist(w.manual)).unwrap()).collect();
+    let comp = if w.lz4 { CompressionType::Lz4 } else { CompressionType::None };
+    let opts = || KeyspaceCreateOptions::default().manual_journal_persist(w.manual);
+    // the transactional flavours wrap a plain Database; plain operations go through inner()
+    let mut sw: Option<(SingleWriterTxDatabase, Vec<SingleWriterTxKeyspace>)> = None;
+    let mut opt: Option<(OptimisticTxDatabase, Vec<OptimisticTxKeyspace>)> = None;
+    let (db, kss): (Database, Vec<Keyspace>) = match w.flavour {
+        1 => {
+            let t = SingleWriterTxDatabase::builder(&dir).worker_threads_unchecked(0).manual_journal_persist(w.manual).journal_compression(comp).open().unwrap();
+            let tk: Vec<_> = (0..w.nks).map(|i| t.keyspace(&format!("ks{i}"), opts).unwrap()).collect();
+            let r = (t.inner().clone(), tk.iter().map(|k| k.inner().clone()).collect());
+            sw = Some((t, tk));
+            r
+        }
+        2 => {
+            let t = OptimisticTxDatabase::builder(&dir).worker_threads_unchecked(0).manual_journal_persist(w.manual).journal_compression(comp).open().unwrap();
+            let tk: Vec<_> = (0..w.nks).map(|i| t.keyspace(&format!("ks{i}"), opts).unwrap()).collect();
+            let r = (t.inner().clone(), tk.iter().map(|k| k.inner().clone()).collect());
+            opt = Some((t, tk));
+            r
+        }
+        _ => {
+            let db = Database::builder(&dir).worker_threads_unchecked(0).manual_journal_persist(w.manual).journal_compression(comp).open().unwrap();
+            let kss = (0..w.nks).map(|i| db.keyspace(&format!("ks{i}"), opts).unwrap()).collect();
+            (db, kss)
+        }
+    };
     println!("IDS {}", kss.iter().map(|k| k.id().to_string()).collect::<Vec<_>>().join(","));
     println!("SEQ {}", db.seqno());
     // optional second writer (C13, multi-thread clause): it has passed everything that comes before
@@ -66,12 +85,31 @@ fn main() {
             }
             WOp::Persist(m) => cls(db.persist(pm(m))),
             WOp::RotateJournal => cls(fjall::verif::verif_rotate_journal(&db)),
+            WOp::Tx(dur, k, items) => {
+                if let Some((t, tk)) = &sw {
+                    let mut tx = t.write_tx();
+                    if let Some(m) = dur { tx = tx.durability(Some(pm(m))); }
+                    for (key, v) in items { match v { Some(v) => tx.insert(&tk[*k], key.clone(), v.clone()), None => tx.remove(&tk[*k], key.clone()) } }
+                    cls(tx.commit())
+                } else if let Some((t, tk)) = &opt {
+                    match t.write_tx() {
+                        Ok(mut tx) => {
+                            if let Some(m) = dur { tx = tx.durability(Some(pm(m))); }
+                            for (key, v) in items { match v { Some(v) => tx.insert(&tk[*k], key.clone(), v.clone()), None => tx.remove(&tk[*k], key.clone()) } }
+                            match tx.commit() { Ok(Ok(())) => "ok".into(), Ok(Err(_)) => "other:conflict".into(), Err(e) => cls(Err(e)) }
+                        }
+                        Err(e) => cls(Err(e)),
+                    }
+                } else { "other:no-tx-database".into() }
+            }
         };
         println!("R {i} {r} {seq}");
         if r != "ok" { if let Some(h) = second.take() { go.store(true, std::sync::atomic::Ordering::Release); let held = parked.load(std::sync::atomic::Ordering::Acquire); println!("B {} {}", if held { i.to_string() } else { "notheld".into() }, h.join().unwrap_or_else(|_| "panic".into())); } }
     }
     if let Some(h) = second.take() { go.store(true, std::sync::atomic::Ordering::Release); println!("B end {}", h.join().unwrap_or_else(|_| "panic".into())); }
     drop(kss);
+    drop(sw);
+    drop(opt);
     drop(db);
     println!("R drop ok 0");
 }
